@@ -3,7 +3,7 @@
 # (first detecting property in meta.json) with the default quick settings and VERIF_SEED given
 # (default 1). Prints one line per change.  usage: regress.sh [seed] [filter]
 seed="${1:-1}"; filter="${2:-}"
-cd /verif
+V="$(cd "$(dirname "$0")/.." && pwd)"; cd "$V"
 for d in seeded/*/; do
   id=$(basename "$d"); [ "$id" = benign ] && continue
   [ -n "$filter" ] && [[ "$id" != *$filter* ]] && continue
@@ -14,7 +14,7 @@ v=m.get('detection',{}).get('violations',[])
 print(v[0]['property'] if v else m['property'])")
   s=$(mktemp -d /tmp/regress-XXXX)
   rsync -a --exclude .git /repo/ "$s/"
-  (cd "$s" && patch -p1 -s < "/verif/$d/patch.diff") || { echo "$id PATCH-FAILED"; rm -rf "$s"; continue; }
+  (cd "$s" && patch -p1 -s < "$V/$d/patch.diff") || { echo "$id PATCH-FAILED"; rm -rf "$s"; continue; }
   t0=$(date +%s)
   out=$(VERIF_REPO="$s" VERIF_SEED="$seed" ./check.sh "$prop" quick 2>&1)
   rc=$?
